@@ -116,7 +116,7 @@ def theorem_names(prop):
     src = _strip_comments(open(path).read())
     ns = re.findall(r"^namespace\s+(\S+)", src, flags=re.M)
     prefix = (ns[0] + ".") if ns else ""
-    names = re.findall(r"^\s*theorem\s+([A-Za-z0-9_'.]+)", src, flags=re.M)
+    names = re.findall(r"^\s*theorem\s+([A-Za-z0-9_'.?!]+)", src, flags=re.M)
     return [prefix + n for n in names], path
 
 
